@@ -32,7 +32,7 @@ pub struct Case {
     pub tag: String,
 }
 
-pub const POINT_ADV: [&str; 7] = ["pass", "rerandomised-representation", "negated", "doubled", "P1", "off-curve(y+1)", "point-at-infinity"];
+pub const POINT_ADV: [&str; 8] = ["pass", "rerandomised-representation", "negated", "doubled", "P1", "off-curve(y+1)", "point-at-infinity", "affine-as-decoded-from-the-wire"];
 
 fn ident(spec: &str, seed: u64) -> Vec<u8> {
     if let Some(n) = spec.strip_prefix("len:") {
@@ -74,6 +74,12 @@ fn adv_point(p: &Point, code: u16, seed: u64) -> Point {
         3 => lib_g1_affine(&sm9::g1_add(&r, &r)),
         4 => lib_g1_affine(&pr.p1),
         6 => lib_g1(&None, &BigUint::one()),
+        // what a peer that received 04||x||y over the wire hands in: the same point decoded by the library (Z = 1)
+        7 => {
+            let mut b = vec![0x04u8];
+            b.extend_from_slice(&sm9::g1_bytes(&r));
+            gm_sm9::verif::point_from_bytes(&b)
+        }
         _ => {
             let (x, y) = r.unwrap();
             lib_g1_raw(&x, &((y + 1u32) % &pr.p))
@@ -219,7 +225,7 @@ pub fn replay(ctx: &Arc<Ctx>, v: &Value) {
 pub fn run(ctx: &Arc<Ctx>) {
     refmodels::selftest::run(&["sm3", "sm9"]).unwrap_or_else(|e| ctx.machinery_error(format!("reference self-test failed: {}", e)));
     let n = sm9::params().n.clone();
-    ctx.set_rule("stateright BFS over the man-in-the-middle choices for the two deliveries R_A->B and R_B->A, each in {pass, re-randomised Jacobian representation, -R, 2R, P1, off-curve, point at infinity}, on the real exch_step_1a / 1b / 2a with ephemeral scalars fixed through the RNG seam, per configuration (master {Annex ke, seeded} x identity pairs {Alice/Bob, ''/x, seeded}); honest paths for every klen 1..=128. Invariant: honest deliveries (incl. re-randomised) give SK_A = SK_B = KDF(ID_A||ID_B||R_A||R_B||g1||g2||g3) of the reference (incl. the GM/T 0044.5 example); an off-curve R is refused by the step that receives it; any other altered R makes the two keys differ; no panic.");
+    ctx.set_rule("stateright BFS over the man-in-the-middle choices for the two deliveries R_A->B and R_B->A, each in {pass, re-randomised Jacobian representation, affine as decoded from the 65-byte wire form, -R, 2R, P1, off-curve, point at infinity}, on the real exch_step_1a / 1b / 2a with ephemeral scalars fixed through the RNG seam, per configuration (master {Annex ke, seeded} x identity pairs {Alice/Bob, ''/x, seeded}); honest paths for every klen 1..=128. Invariant: honest deliveries (incl. re-randomised) give SK_A = SK_B = KDF(ID_A||ID_B||R_A||R_B||g1||g2||g3) of the reference (incl. the GM/T 0044.5 example); an off-curve R is refused by the step that receives it; any other altered R makes the two keys differ; no panic.");
     let mut g = SplitMix::new(ctx.seed, "c17");
     let annex = Config { ke: "0002E65B0762D042F51F0D23542B13ED8CFA2E9A0E7206361E013A283905E31F".into(), ida: "Alice".into(), idb: "Bob".into(), ra: "00005879DD1D51E175946F23B1B41E93BA31C584AE59A426EC1046A4D03B06C8".into(), rb: "00018B98C44BEF9F8537FB7D071B2C928B3BC65BD3D69E1EEE213564905634FE".into() };
     let seeded_ke = hexbig(&g.nonzero_below(&n));
@@ -265,7 +271,7 @@ pub fn run(ctx: &Arc<Ctx>) {
         cfgs.push(mk(&seeded_ke, "len:33", "len:7", &mut g));
     }
     let n_adv = cfgs.len().min(ctx.tier.pick(5usize, 12));
-    let (st, hists) = explore_collect((0..n_adv as u16).map(|i| vec![i]).collect(), Box::new(|h: &[u16]| if h.len() < 3 { (0..7).collect() } else { vec![] }));
+    let (st, hists) = explore_collect((0..n_adv as u16).map(|i| vec![i]).collect(), Box::new(|h: &[u16]| if h.len() < 3 { (0..8).collect() } else { vec![] }));
     let mut cases: Vec<Case> = hists.iter().filter(|h| h.len() == 3).map(|h| Case { cfg: cfgs[h[0] as usize].clone(), klen: 16, adv: [h[1], h[2]], tag: if h[0] == 0 { "annex".into() } else { format!("cfg{}", h[0]) } }).collect();
     ctx.depth(st.max_depth);
     ctx.cov("adversary_model", json!({"configurations": cfgs.len(), "unique_states": st.unique_states, "generated": st.generated, "max_depth": st.max_depth, "histories_judged": cases.len(), "point_choices": POINT_ADV}));
@@ -275,7 +281,7 @@ pub fn run(ctx: &Arc<Ctx>) {
         }
     }
     for klen in 1..=128usize {
-        cases.push(Case { cfg: cfgs[klen % cfgs.len()].clone(), klen, adv: [(klen % 2) as u16, ((klen / 2) % 2) as u16], tag: format!("honest/klen%32={}", if klen % 32 == 0 { "0" } else { "!0" }) });
+        cases.push(Case { cfg: cfgs[klen % cfgs.len()].clone(), klen, adv: [[0u16, 1, 7][klen % 3], [0u16, 1, 7][(klen / 3) % 3]], tag: format!("honest/klen%32={}", if klen % 32 == 0 { "0" } else { "!0" }) });
     }
     ctx.note_bound(format!("{} configurations, {} runs", cfgs.len(), cases.len()));
     ctx.sample(serde_json::to_value(&cases[7]).unwrap());
